@@ -673,6 +673,20 @@ impl Model {
             }
             SOp::Rollback { g, name } => {
                 let g = *g % N_GROUPS;
+                // a Nostr group id belongs to at most one group: a snapshot whose record carries an
+                // id that another group has taken since cannot be restored; the rollback is
+                // refused and nothing changes (the snapshot stays)
+                if let Some(sg) = self.snapshots.get(&(g, snap_name(*name))).and_then(|sl| sl.group.as_ref()) {
+                    for (og, sl) in &self.slices {
+                        if *og != g {
+                            if let Some(o) = &sl.group {
+                                if o.nostr_group_id == sg.nostr_group_id {
+                                    return err();
+                                }
+                            }
+                        }
+                    }
+                }
                 match self.snapshots.remove(&(g, snap_name(*name))) {
                     Some(sl) => {
                         self.slices.insert(g, sl);
